@@ -26,6 +26,7 @@ func checkC19(c *Ctx) {
 	c.Rule("C19/R6", "sibling recognisers: the new and the legacy 'key: value' line recognisers apply the same predicates (lower-case start, no space/upper in key, ':' after position 0, blank/tab separated value)")
 	c.Rule("C19/R7", "results are immutable: in the legacy reader every write to the current label map happens after the map was replaced by a copy in the same call; labels added by the server (permanent labels) are never set or removed by file content")
 
+	c.Rule("C19/R8", "filter before limit in the upload listing: wherever the listing query is cut with LIMIT n over a per-upload record count that can be zero (the correlated COUNT(*) of the empty-query path), the text before the LIMIT already contains the rCount > 0 condition, so empty or aborted uploads do not use up the n newest slots")
 	p := mustLoad(c, loadOpts{}, "./storage/db", "./storage/query", "./storage/benchfmt", "./storage/app", "./storage", "./analysis/app", "./benchfmt")
 	c19Merge(c, p)
 	c19SQL(c, p)
@@ -34,6 +35,7 @@ func checkC19(c *Ctx) {
 	c19Coalesce(c, p)
 	c19Siblings(c, p)
 	c19Immutable(c, p)
+	c19Limit(c, p)
 }
 
 // ---- R1 ----
@@ -943,4 +945,49 @@ func mustAfterEvent(fn *ssa.Function, isEvent func(ssa.Instruction) bool) map[ss
 		}
 	}
 	return result
+}
+
+func c19Limit(c *Ctx, p *Prog) {
+	const R = "C19/R8"
+	fn := p.Method("storage/db", "DB", "ListUploads")
+	if fn == nil {
+		c.Undecided(R, "anchor:DB.ListUploads", "", "not found")
+		return
+	}
+	n, nZero := 0, 0
+	eachInstr(fn, func(_ *ssa.BasicBlock, in ssa.Instruction) {
+		bo, ok := in.(*ssa.BinOp)
+		if !ok || bo.Op != token.ADD || !isString(bo.Type()) {
+			return
+		}
+		isLimit := false
+		for _, s := range stringPieces(bo.Y) {
+			if strings.Contains(s, "LIMIT %d") {
+				isLimit = true
+			}
+		}
+		if !isLimit {
+			return
+		}
+		n++
+		before := stringPieces(bo.X)
+		canBeZero, filtered := false, false
+		for _, s := range before {
+			if strings.Contains(s, "COUNT(*) FROM Records r WHERE r.UploadID = u.UploadID") {
+				canBeZero = true
+			}
+			if strings.Contains(strings.Join(strings.Fields(s), " "), "rCount > 0") {
+				filtered = true
+			}
+		}
+		if !canBeZero {
+			c.OK(R, fmt.Sprintf("ListUploads:limit#%d", n), p.pos(bo.Pos()), "the limited rows come from a join that only yields uploads with matching records")
+			return
+		}
+		nZero++
+		c.Check(filtered, R, fmt.Sprintf("ListUploads:limit#%d", n), p.pos(bo.Pos()), "rCount > 0 is applied before the LIMIT",
+			"the LIMIT is applied to all uploads, including those without records, and the rCount > 0 condition only afterwards: when an empty or aborted upload is among the newest n IDs, an empty query with limit n returns fewer than n uploads, possibly none")
+	})
+	c.Floor(R, "LIMIT clauses in the upload listing", n, 2)
+	c.Floor(R, "LIMIT clauses over counts that can be zero", nZero, 1)
 }
